@@ -1044,7 +1044,7 @@ class mru_cache(object):
                         cache.clear() 
                         queue.clear()
                     else: # purge most recently used cache entry
-                        k = queue_pop()
+                        k = queue_pop() if queue else key
                         if cache.archived(): cache.dump(k)
                         try: del cache[k]
                         except KeyError: pass #FIXME: possible none purged
@@ -1054,7 +1054,7 @@ class mru_cache(object):
                 return result
 
             # record recent use of this key
-            queue_append(key)
+            if key in cache: queue_append(key)
             return result
 
         def archive(obj):
